@@ -368,7 +368,7 @@ def run(ck):
                     if q and (boxname, d) in (("far", 1), ("neg", 2)):
                         continue
                     alph = [-50.0, -3.0, -0.3, 0.3, 3.0, 50.0] if d == 1 else [-50.0, -0.3, 0.3, 50.0]
-                    c = dict(sampler=kind, box=boxname, start=where, d=d, alphabet=alph, steps=1 if q else 2, bound=3 if q else 4)
+                    c = dict(sampler=kind, box=boxname, start=where, d=d, alphabet=alph, steps=1 if q else 2, bound=3)
                     if kind == "PcaChain" and d == 2:
                         sc.append(dict(c, oblique=True))
                     if kind.startswith("Hamiltonian"):
